@@ -121,9 +121,14 @@ def run():
     ck = Check("C12")
     rng = ck.rng("lattice")
     rows = cover.covering(FACTORS, ck.pick(2, 3), rng, valid=lambda r: True)
+    if not ck.quick:
+        for extra in range(4):     # four more independently generated 3-wise arrays (different rows, different seeds)
+            rows += cover.covering(FACTORS, 3, ck.rng("lattice", extra), valid=lambda r: True)
     if ck.quick:
         rows = rows[:8] if len(rows) > 8 else rows
     trims = TRIMS[:3] if ck.quick else TRIMS
+    ck.tables["pairwise_coverage"] = cover.coverage(rows, FACTORS, 2)
+    ck.tables["threeway_coverage"] = cover.coverage(rows, FACTORS, 3)
     tasks = [("tvf.checks.c12:case", dict(cfg=to_cfg(r, ck.subseed("cfg", i)), trims=trims), None) for i, r in enumerate(rows)]
     for i, st, val in farm.run(tasks, timeout=900, progress="C12"):
         cfg = tasks[i][1]["cfg"]
